@@ -172,6 +172,25 @@ def run_shard(ctx):
             continue
         if base["dumps"] != data[:len(base["dumps"])] if isinstance(base["dumps"], bytes) else False:
             pass   # byte-exactness is C06's
+        # re-parsed copies that sat elsewhere in their stream: the answers may only depend on the bytes
+        try:
+            st = io.BytesIO(b"JUNKJUNKJUNK" + data)
+            st.seek(12)
+            variants = [("stream-offset", f.Pickled.load(st)),
+                        ("stack-member", f.StackedPickle.load(b"\x80\x02]q\x00(K\x01K\x02e." + data)[1]),
+                        ("stack-member-p0", f.StackedPickle.load(b"(lp0\nI1\na." + data + b"N.")[1])]
+        except Exception:
+            variants = []
+        for vname, pv in variants:
+            for q in ("check_safety", "unparse", "to_dict", "dumps"):
+                got = answer(f, analysis, tracing, pv, q)
+                agg.count("answers_compared")
+                if got != base[q]:
+                    agg.violation(f"position-dependent:{q}:{vname}",
+                                  f"'{q}' of the same bytes differs when the pickle was parsed as {vname}",
+                                  {"label": label, "hex": data.hex(), "sequence": [vname, q],
+                                   "first": str(base[q])[:300], "later": str(got)[:300]})
+                    break
         rng = asm.rng_for(ctx.seed, "c13seq" + ch)
         seqs = []
         if nontrivial:
